@@ -354,6 +354,8 @@ class _Compiler(object):
                 pr.features.add("call")
                 continue
             if is_integer_literal(w):
+                if not -(1 << 63) <= literal_value(w) < (1 << 64):
+                    raise Unspecified("integer literal beyond 64 bits")
                 seq.append(("lit", literal_value(w)))
                 continue
             raise CompileError("unrecognized word or wrong context for word: %r" % w)
